@@ -792,6 +792,17 @@ class SDatetime(RD, metaclass=_Meta):
         nl, nc = ut + ot, uc + oc
         if branch(z3.Or(nl < MIN_L, nl > MAX_L), not MIN_L <= nc <= MAX_L):
             raise OverflowError("date value out of range")
+        sub_add = getattr(type(s), "__add__", None)
+        if not isinstance(tz, (STimezone, RTZ)) and sub_add is not None and sub_add is not SDatetime.__add__ and sub_add is not RD.__add__:
+            # CPython: astimezone() ends in tz.fromutc(utc), and the C implementations of fromutc (zoneinfo, the tzinfo default) add the
+            # offset with PyNumber_Add, i.e. through the subclass's own __add__ (TimestampType.__add__ re-wraps its result): emulate that
+            # call so that whatever the subclass does to the result (e.g. replace the tzinfo object) is part of the model
+            try:
+                r = sub_add(mkdt(type(s), ut, uc, tz), mktd(STimedelta, ot, oc))
+                if isinstance(r, RD):
+                    return r
+            except RecursionError:
+                raise
         return mkdt(SDatetime, nl, nc, tz)
 
     def replace(s, year=None, month=None, day=None, hour=None, minute=None, second=None, microsecond=None, tzinfo=True, *, fold=None):
